@@ -5,9 +5,9 @@ UNITS = {
   'front': dict(wrapper='w_front.cpp', mode='seq', cxxflags=MCXX, selftest=True,
                 cut=['internalPoolMalloc', 'getFromLLOCache', 'getTLS', 'doInitialization']),
   # pubfree (thread mode): cross-thread free / privatisation / re-allocation on one slab block
-  'pub2': dict(wrapper='w_pub.cpp', mode='lcs', unroll=2, cxxflags=MCXX, prune=True,
+  'pub2': dict(wrapper='w_pub.cpp', mode='lcs', unroll=2, cxxflags=MCXX, prune=True, cut=['adjustPositionInBin'],
               threads={'vp_thr_free': ['a', 'b'], 'vp_thr_owner': ['o'], 'vp_thr_owner2': ['o'], 'vp_thr_adopt': ['o']}),
-  'pub': dict(wrapper='w_pub.cpp', mode='lcs', unroll=3, cxxflags=MCXX, prune=True,
+  'pub': dict(wrapper='w_pub.cpp', mode='lcs', unroll=3, cxxflags=MCXX, prune=True, cut=['adjustPositionInBin'],
               threads={'vp_thr_free': ['a', 'b'], 'vp_thr_owner': ['o'], 'vp_thr_owner2': ['o'], 'vp_thr_adopt': ['o']}),
 }
 HARNESSES = [
